@@ -40,6 +40,11 @@ LAYOUTS = [
     "start: x ((a | b) c (d | e)) y\n",
     "start: ((a b) | (c d)) e !((a) (b)) c\n",
     "start: ','.((a b) (c d))+ ((a))* [((b) (c))]\n",
+    # f-strings inside actions: conversions, the = form, format specs, nested braces, several fields
+    "start: a { f\"{x!r}\" }\n  | b { f\"{x=}\" }\n  | c { f'{x!s:>4}' }\n",
+    "start: a { f\"{x:{w}.{p}} and {y!a}\" }\n",
+    "start: b { g(f'{a if b else c}', f\"{{literal}} {d[1]}\") }\n  | c { f'{x  +  y}' + h(p if q else r) }\n",
+    "start: a { f\"pre {x.y!r} mid {z} post\" + f'{n:03d}' }\n",
 ]
 
 
@@ -257,6 +262,7 @@ PROBES = {
     "C09-duplicate-rule-dropped": ("a: b\na: c\n", lambda g: g is not None and len(g.rules) == 1),
     "C09-rule-named-DEDENT-rejected": ("a: NEWLINE INDENT | x\nDEDENT: y\n", lambda g: g is None),
     "C09-text-after-ENDMARKER-name-ignored": ("a: b\nENDMARKER junk junk\n", lambda g: g is not None),
+    "C09-fstring-nested-spec-unreadable": ("start: a { f'{y:>{w}}' }\n", lambda g: g is None),
 }
 
 PRELUDE_EXTRA = """
@@ -278,6 +284,90 @@ def gram_files(tier: str) -> list[pathlib.Path]:
     if tier == "quick":
         fs = [f for f in fs if f.name != "python.gram" and f.name != "fullpy.gram"]
     return fs
+
+
+_SKIP = None
+
+
+def _ptoks(src: str, fold_fstrings: bool = False):
+    """the Python tokens of a piece of text as (kind, string) pairs, layout tokens dropped; with fold_fstrings every
+    f-string is replaced by one placeholder token"""
+    global _SKIP
+    if _SKIP is None:
+        _SKIP = {tokenize.NL, tokenize.NEWLINE, tokenize.INDENT, tokenize.DEDENT, tokenize.COMMENT, tokenize.ENDMARKER}
+    out, depth = [], 0
+    fs, fe = getattr(tokenize, "FSTRING_START", -1), getattr(tokenize, "FSTRING_END", -2)
+    try:
+        for t in tokenize.generate_tokens(io.StringIO(src).readline):
+            if t.type in _SKIP:
+                continue
+            if fold_fstrings:
+                if t.type == fs:
+                    depth += 1
+                    if depth == 1:
+                        out.append(("FSTRING", ""))
+                    continue
+                if t.type == fe:
+                    depth -= 1
+                    continue
+                if depth:
+                    continue
+            out.append((t.type, t.string))
+    except (tokenize.TokenError, IndentationError, SyntaxError):
+        return None
+    return out
+
+
+def _texts_of(g):
+    """every free-text piece the reader builds: rule types, item types, actions"""
+    for r in g.rules.values():
+        if r.type:
+            yield "type of rule " + r.name, r.type
+        stack = list(r.rhs.alts)
+        while stack:
+            a = stack.pop()
+            if a.action:
+                yield "action in rule " + r.name, a.action
+            for n in a.items:
+                if getattr(n, "type", None):
+                    yield "type of an item in rule " + r.name, n.type
+                todo = [n.item]
+                while todo:
+                    it = todo.pop()
+                    if isinstance(it, G.Rhs):
+                        stack += it.alts
+                    elif isinstance(it, G.Group):
+                        stack += it.rhs.alts
+                    elif isinstance(it, G.Gather):
+                        todo += [it.separator, it.node]
+                    elif hasattr(it, "node"):
+                        todo.append(it.node)
+
+
+def _find_sub(hay, needle, start=0):
+    n = len(needle)
+    for i in range(start, len(hay) - n + 1):
+        if hay[i:i + n] == needle:
+            return i
+    return -1
+
+
+def as_written(text: str, g):
+    """"actions and types are those written": the Python tokens of every text the reader built occur, contiguously, among
+    the tokens of the grammar text.  Returns [(what, read text, only_inside_fstrings)]."""
+    hay = _ptoks(text)
+    hay_f = _ptoks(text, True)
+    bad = []
+    if hay is None:
+        return bad
+    for what, s in _texts_of(g):
+        nd = _ptoks(s)
+        if nd is not None and nd and _find_sub(hay, nd) >= 0:
+            continue
+        nf = _ptoks(s, True)
+        inside = nf is not None and hay_f is not None and (not nf or _find_sub(hay_f, nf) >= 0)
+        bad.append((what, s, inside))
+    return bad
 
 
 def run(chk: common.Check, tier: str):
@@ -308,6 +398,7 @@ def run(chk: common.Check, tier: str):
             else:
                 chk.violation(f"reader quirk {fid}", {"grammar": text}, True)
     # ---- round trip on the implementation
+    fstring_known = False
     good = []
     rejected = []
     for t in texts:
@@ -320,6 +411,13 @@ def run(chk: common.Check, tier: str):
             chk.bump("not readable (generator produced invalid text, or a probe)")
             rejected.append(t)
             continue
+        for what, got, inside in as_written(t, g):
+            if inside and "C09-fstring-joined-from-token-strings" in kfs:
+                fstring_known = True
+                continue
+            chk.violation(f"the {what} is not the text written in the grammar: read {got!r}",
+                          {"grammar": origin.get(t, t)[:3000], "read": got, "what": what,
+                           "how": "Python tokens of the text the reader built vs the tokens of the grammar text"}, True)
         d1 = g2c.dump(g)
         p = printed(g)
         try:
@@ -338,6 +436,8 @@ def run(chk: common.Check, tier: str):
                           {"grammar": origin.get(t, t), "printed": p[:3000]}, True)
         good.append((t, g))
         chk.sample({"grammar": origin.get(t, t)[:160], "printed": p[:160]}, 3)
+    if fstring_known:
+        chk.known(kfs["C09-fstring-joined-from-token-strings"]["what"])
     # ---- reference reader / token-level printer / theorem instances, evaluated in Coq
     cases, descs = [], []
     for t, g in good:
